@@ -23,6 +23,21 @@ CLAIMED = {
             "Every delivery or commit/proposal build that returns Err is bracketed by a component-wise snapshot of the complete member state (context, proposal caches, tree, private tree, epoch secrets incl. ratchets, key schedule, pending updates, pending commit, signer, pending prior-epoch records); any difference is a violation, the genuine copy of a rejected message must still be accepted afterwards, and the group must still converge (bounded liveness). A probe records which error class each rejection came from so evidence shows the stages reached.",
             "trusted: hook H1 encodes all state of a member; the cache-fill rule for prior-epoch records (DESIGN §5)",
             "DESIGN.md §6.C04"),
+    "C06": ("exploration",
+            "deterministic simulation with crash/restart faults: after every write the party's whole disk is forked and loaded by a fresh client (loaded state == saved state, component-wise); the loaded group is kept as a twin and driven in lock-step with the never-reloaded original; crashes at arbitrary points must restore exactly the last written state; in-memory and SQLite providers run mirrored",
+            "At every write_to_storage of every member the disk (group-state, key-package and PSK stores) and the member's crypto PRNG are forked, a new Client loads the group from the fork and its complete state (hook H1, canonical encoding) must equal the saved member, including pending commit, cached proposals and pending own updates. Up to three members per world keep that loaded group as a twin: every later library call is repeated on the twin and state, outcome and (after writes) stored history must stay equal. A crash drops the live object with its unwritten work; load_group must return exactly the state recorded at the last write and the member must catch up from the delivery service log. Half the runs use a Mirror store (every call to both the in-memory and the SQLite provider, compared through the trait after every write); retention 1/2/3/5.",
+            "trusted: H1 covers all member state; the crash model is 'process dies between two storage-trait calls' (no torn writes below SQLite); twin lock-step stops when a commit carries >= 2 by-reference proposals because their order follows a randomly keyed hash map",
+            "DESIGN.md §6.C06"),
+    "C11": ("exploration",
+            "deterministic simulation of racing committers: several members (and external joiners) commit in the same epoch, the simulated delivery service picks the winner, losers and applied commits are re-delivered as stale; pending-commit model checked after every build / clear / apply / detached apply",
+            "Interleavings of commit, commit_detached, clear_pending_commit, apply_pending_commit, own-commit echo, foreign commits, write/crash/reload with a pending commit and apply_detached_commit (fresh and stale) by several racing members under every DS winner choice. After a build the member's complete state (H1) may differ only in the pending-commit slot (plus its own consumed handshake key), a second commit must return ExistingPendingCommit, clear restores the ability to commit, applying yields the canonical record of the epoch (C01 oracle), any epoch change leaves no pending commit, stale or losing commits for another epoch are rejected with the state unchanged, and detached secrets made in an older epoch must be refused with the state unchanged.",
+            "trusted: the simulator's pending-commit model; which of two commits for the same epoch wins is the DS's choice and never asserted",
+            "DESIGN.md §6.C11"),
+    "C15": ("fault_enumeration",
+            "fault enumeration inside deterministic simulation: for every library operation in a simulated history each individual storage call (group-state, key-package, PSK store) is made to fail in turn, attempt after attempt on the same member, then the operation is repeated fault-free and compared with a run that never saw a fault",
+            "For every commit, apply_pending_commit, process_incoming_message (commit / proposal / application incl. late messages), join_group, external commit, load_group and write_to_storage in the sampled histories, call index 0,1,2,... of the operation's storage calls is failed cleanly, one failed attempt after the other: each must return Err, leave the member's complete state (H1) and the stored history / key-package store unchanged; the first attempt in which no fault fires is the fault-free execution, and for operations that do not write, the same operation re-run from the saved pre-operation member must end in the identical state. The enumeration is complete per operation instance (all call indices); histories are sampled. Clean failures only.",
+            "trusted: H1 covers all member state; the crypto PRNG is rewound before every attempt (DESIGN §6.C15); one known finding (write_to_storage is not atomic across the two stores) is listed in known_findings.json",
+            "DESIGN.md §6.C15"),
 }
 
 NOT_APPLICABLE = {
